@@ -882,8 +882,10 @@ class H2Stream:
         if self.state_machine.client and self._authority is None:
             self._authority = authority_from_headers(headers)
 
-        # store request method for _initialize_content_length
-        self.request_method = extract_method_header(headers)
+        # store request method for _initialize_content_length. Trailers have
+        # no :method: they must not make us forget the request's.
+        if not self.state_machine.trailers_sent:
+            self.request_method = extract_method_header(headers)
 
         return frames
 
